@@ -1,4 +1,63 @@
-From HP Require Import Base.Prelude Fstest.Assert.
-Example C20_smoke : tree_assert 0 [(S "a", mkEnt 0 493 true)] [(S "a", mkEnt 0 448 true)] = true.
-Proof. vm_compute. reflexivity. Qed.
-Print Assumptions C20_smoke.
+(* C20 -- The fstest conformance suite accepts the reference and rejects deviants.
+   What is PROVED here concerns the suite's verdict function for final trees ([tree_assert] =
+   tryAssertEqualFS + walkFSEntries + assert.Subset, Fstest/Assert.v), for ALL expected/actual trees.
+   That the real suite accepts mem.FS and os.FS and rejects each catalogued deviant is decided per run by
+   executing the real suite (54 deviants), not by a theorem: the scenarios themselves are not modelled.
+   (* OPEN: C20_rejects_every_deviant -- needs the scenario table as data *) *)
+From HP Require Import Base.Prelude Fstest.Assert Fstest.AssertProofs.
+Open Scope N_scope.
+
+(* The default FileModeMask (0) makes the verdict independent of every mode of the tree under test ... *)
+Theorem C20_default_mask_is_blind_to_modes : forall expected actual actual',
+  same_but_modes actual actual' -> tree_assert 0 expected actual = tree_assert 0 expected actual'.
+Proof. exact mask_zero_blind. Qed.
+Print Assumptions C20_default_mask_is_blind_to_modes.
+
+(* ... and of every mode a scenario expects. *)
+Theorem C20_default_mask_ignores_expected_modes : forall p e m actual,
+  tree_assert 0 [(p, e)] actual = tree_assert 0 [(p, mkEnt (e_size e) m (e_dir e))] actual.
+Proof. exact mask_zero_ignores_expected_modes. Qed.
+Print Assumptions C20_default_mask_ignores_expected_modes.
+
+(* An entry left behind is never noticed (subset comparison), whatever the mask. *)
+Theorem C20_extra_entries_are_accepted : forall mask expected actual q e,
+  (forall p x, In (p, x) expected -> str_eqb q p = false) ->
+  tree_assert mask expected ((q, e) :: actual) = tree_assert mask expected actual.
+Proof. exact subset_accepts_superset. Qed.
+Print Assumptions C20_extra_entries_are_accepted.
+
+(* What the verdict does depend on: a kept mode bit, a missing entry, a regular file's size, the kind. *)
+Theorem C20_kept_mode_bit_is_checked : forall mask p e a actual,
+  tlookup actual p = Some a -> N.land (e_mode e) mask <> N.land (e_mode a) mask ->
+  tree_assert mask [(p, e)] actual = false.
+Proof. exact kept_bit_is_checked. Qed.
+Print Assumptions C20_kept_mode_bit_is_checked.
+
+Theorem C20_missing_entry_is_rejected : forall mask p e actual,
+  tlookup actual p = None -> tree_assert mask [(p, e)] actual = false.
+Proof. exact missing_entry_is_noticed. Qed.
+Print Assumptions C20_missing_entry_is_rejected.
+
+Theorem C20_wrong_size_is_rejected : forall mask p e a actual,
+  tlookup actual p = Some a -> e_dir a = false -> e_size e <> e_size a -> tree_assert mask [(p, e)] actual = false.
+Proof. exact wrong_size_is_noticed. Qed.
+Print Assumptions C20_wrong_size_is_rejected.
+
+Theorem C20_wrong_kind_is_rejected : forall mask p e a actual,
+  tlookup actual p = Some a -> e_dir e <> e_dir a -> tree_assert mask [(p, e)] actual = false.
+Proof. exact wrong_kind_is_noticed. Qed.
+Print Assumptions C20_wrong_kind_is_rejected.
+
+(* The verdict on the reference: a tree is accepted against itself. *)
+Theorem C20_accepts_the_expected_tree : forall mask t, NoDup (map fst t) ->
+  Forall (fun kv => e_dir (snd kv) = true -> e_size (snd kv) = 0) t -> tree_assert mask t t = true.
+Proof. exact accepts_itself. Qed.
+Print Assumptions C20_accepts_the_expected_tree.
+
+(* Non-vacuity / the two blind spots on a concrete tree: a wrong permission and a left-over file pass. *)
+Example C20_blind_spots_witness :
+  let expected := [(S "foo", mkEnt 0 (2147483648 + 448) true); (S "foo/bar", mkEnt 3 420 false)] in
+  let deviant  := [(S "junk", mkEnt 1 384 false); (S "foo", mkEnt 0 (2147483648 + 511) true); (S "foo/bar", mkEnt 3 292 false)] in
+  tree_assert 0 expected deviant = true /\ tree_assert 4294967295 expected deviant = false.
+Proof. vm_compute. auto. Qed.
+Print Assumptions C20_blind_spots_witness.
